@@ -72,6 +72,8 @@ def compare(model, pkgflat, design, top_mid):
             diffs = _compare_with(model, pkgflat, mapping)
             if not diffs:
                 return True, []
+            if diffs[0].startswith("inconclusive"):
+                return None, diffs
             if first is None:
                 first = diffs
             if n >= MAX_ALTERNATIVES:
@@ -325,28 +327,47 @@ def _compare_with(model, pkgflat, mapping, limit=6):
                 out.append(pr)
         return out
 
-    def commit(pr, g):
-        for mn, pn in pr:
-            m2p.setdefault(mn, (pn, ("s", g[0], g[1], 0)))
-            p2m.setdefault(pn, (mn, ("s", g[0], g[1], 0)))
+    # depth-first search with propagation: groups constrain each other through shared nets, so a
+    # free-looking choice for one group can make another impossible; backtrack when that happens
+    budget = [4000]
 
-    progress = True
-    while pending and progress:
-        progress = False
-        for g in list(pending):
-            opts_ = options(g)
-            if not opts_:
-                return [f"flattened members of bundle {g[1]} at {g[0]}: no assignment of the signals {g[3]} to the members {g[2]} is consistent with the rest of the design"]
-            if len(opts_) == 1:
-                commit(opts_[0], g)
-                pending.remove(g)
-                progress = True
-        if not progress and pending:
-            # all remaining groups are still free: fix one (its nets are isolated from every pinned
-            # anchor) and propagate again
-            g = pending.pop(0)
-            commit(options(g)[0], g)
-            progress = True
+    def solve(pending_):
+        if not pending_:
+            return True
+        budget[0] -= 1
+        if budget[0] < 0:
+            raise Mismatch("inconclusive")
+        # most constrained group first
+        scored = sorted(((len(options(g)), i) for i, g in enumerate(pending_)))
+        n_opts, gi = scored[0]
+        if n_opts == 0:
+            return False
+        g = pending_[gi]
+        rest = pending_[:gi] + pending_[gi + 1 :]
+        for pr in options(g):
+            added_m, added_p = [], []
+            for mn, pn in pr:
+                if mn not in m2p:
+                    m2p[mn] = (pn, ("s", g[0], g[1], 0))
+                    added_m.append(mn)
+                if pn not in p2m:
+                    p2m[pn] = (mn, ("s", g[0], g[1], 0))
+                    added_p.append(pn)
+            if solve(rest):
+                return True
+            for mn in added_m:
+                del m2p[mn]
+            for pn in added_p:
+                del p2m[pn]
+        return False
+
+    try:
+        ok = solve(pending)
+    except Mismatch:
+        return ["inconclusive: naming search budget exhausted"]
+    if not ok:
+        g = pending[0]
+        return [f"flattened members of bundles ({', '.join(sorted({str(x[1]) for x in pending}))}): no assignment of the flattened signals to the members is consistent with the rest of the design"]
     return diffs
 
 
